@@ -93,6 +93,9 @@ type Case struct {
 	FlushFirst bool   `json:"flush_first"`  // call FlushAllFlushers() at that hit before dying (the flusher fires exactly there)
 	FlushAtAll string `json:"flush_at_all"` // call FlushAllFlushers() at EVERY hit of this point (flusher interleaving)
 	CountHits  bool   `json:"count_hits"`   // report how often each point was hit
+	DelayPoint string `json:"delay_point"`  // sleep DelayMs at every hit of this point (optionally only when its 2nd arg == DelayArg)
+	DelayMs    int    `json:"delay_ms"`
+	DelayArg   *uint64 `json:"delay_arg,omitempty"`
 }
 
 type Result struct {
@@ -590,12 +593,15 @@ func runCase(c Case) (res Result) {
 	}
 	hits := map[string]int{}
 	var hitMu sync.Mutex
-	if c.KillPoint != "" || c.FlushAtAll != "" || c.CountHits {
+	if c.KillPoint != "" || c.FlushAtAll != "" || c.CountHits || c.DelayPoint != "" {
 		verifhook.Set(func(name string, args []uint64, sarg string) {
 			hitMu.Lock()
 			hits[name]++
 			n := hits[name]
 			hitMu.Unlock()
+			if c.DelayPoint != "" && name == c.DelayPoint && (c.DelayArg == nil || (len(args) > 1 && args[1] == *c.DelayArg)) {
+				time.Sleep(time.Duration(c.DelayMs) * time.Millisecond)
+			}
 			if c.FlushAtAll != "" && name == c.FlushAtAll {
 				transfer.FlushAllFlushers()
 			}
